@@ -315,7 +315,7 @@ def check_C14(tier, seed):
         reader_histories(rep, tier, seed + 1000, "c14r_", True, 8, 500)
         reader_histories(rep, tier, seed + 1001, "c14s_", True, 6, 400, scan=3)
         writer_histories(rep, tier, seed + 1000, "c14w_", 4, 300, big=False)
-        roundtrip_runs(rep, seed + 30, "c14rt_", 6, 80, specs=("Trace_Render",))
+        roundtrip_runs(rep, seed + 30, "c14rt_", 8, 150, specs=("Trace_Render",))
     else:
         roundtrip_runs(rep, seed + 30, "c14rt_", 12, 1500, specs=("Trace_Render",))
         reader_histories(rep, tier, seed + 1000, "c14r_", True, 14, 6000, ops=60, maxlen=96)
